@@ -94,13 +94,13 @@ CHECKS = {
          "DESIGN.md §4 C11"),
  "C14": ("D-end-to-end-driver",
          "exhaustive enumeration of camera descriptions x truncation points on ReadHeaderInfo; exhaustive enumeration of frame/marker arrangements x read segmentations (all single cut points, pairs around markers, one-byte reads) through the real handleConn; static extraction of marker/keys from both daemons",
-         "Header: 972 camera descriptions encoded as the camera daemon does, with a sentinel after the blank line, and every truncation point of a subset. Stream: every arrangement of 3 (6 thorough) frames with <=2 'clear' markers at any gap, under greedy reads, one-byte reads, every single cut point of the byte stream and every pair of cut points around header end and markers; resulting files must equal the recordings predicted by driving a real MotionProcessor directly (each frame once, in order, reset at each marker).",
+         "Header: 972 camera descriptions encoded as the camera daemon does, with a sentinel after the blank line, and every truncation point of a subset. Stream: every arrangement of 3 (6 thorough) frames with <=2 'clear' markers at any gap, under greedy reads, one-byte reads, every single cut point of the byte stream and every pair of cut points around header end and markers; resulting files must equal the recordings predicted by driving a real MotionProcessor directly (each frame once, in order, reset at each marker); the marker's effect is also stated absolutely (a recording open at the marker never holds the frame after it; a level change only across the marker is not recorded, while it is without the marker).",
          "sendCameraSpecs needs camera hardware: its 3-line encoder is reproduced and bound to the source by the static extraction (stage c), which is syntactic, not an exploration. Pairs of cuts away from markers/header end are enumerated for one arrangement only (frame-marker-frame, thorough tier); three or more cuts are covered by the one-byte-read mode only.",
          "DESIGN.md §4 C14"),
  "C16": ("B-controlled-scheduler",
          "stateless exploration of all interleavings up to a preemption bound (iterative context bounding) of the real handleConn and the real request paths under a cooperative scheduler, on syntactically instrumented copies of the sources; vector-clock happens-before race detection on watched locations",
-         "Six scenarios (ring capacity 1,2,3; one or two snapshots; test-recording request; CameraInfo; reconnect with a complete and with a truncated header): every interleaving with <=1 (quick) / <=2 (thorough, complete: 401 515 executions) preemptions, scheduling points at every lock operation, every access to processor/headerInfo/CurrentFrame/StartSnapshot/ring index and every statement of the Boson parse loop and Frame.Copy/CreateCopy. Oracle: snapshots are uniform-valued (not a mixture), not older than the last frame processed when requested, no deadlock/panic, all frames processed, no watched conflicting accesses unordered by lock happens-before.",
-         "Five genuine defects are recorded as known findings (races on processor, headerInfo, CurrentFrame, StartSnapshot; torn snapshot at ring capacity 1) and printed as KNOWN-FINDING; one (CameraInfo nil dereference) was fixed. SC interleavings at instrumented points; weak-memory effects only via the race check. D-Bus transport itself is not modelled (request bodies are called directly).",
+         "Six scenarios (ring capacity 1,2,3; one or two snapshots; test-recording request; CameraInfo; reconnect with a complete and with a truncated header): every interleaving with <=1 (quick; <=2 on the two smallest scenarios) / <=3 (thorough, 14 processes, complete: 2.2e7 executions) preemptions, scheduling points at every lock operation, every access to processor/headerInfo/CurrentFrame/StartSnapshot/ring index and every statement of the Boson parse loop and Frame.Copy/CreateCopy. Oracle: snapshots are uniform-valued (not a mixture), independent copies, not older than the last frame processed when requested, and are returned at all once a frame of the connection has been received; an accepted test-recording request is pending, in progress or on disk at the end; after every execution the lastFrame filter is probed sequentially; no deadlock/panic, all frames processed, no watched conflicting accesses unordered by lock happens-before.",
+         "Five genuine defects are recorded as known findings (races on processor, headerInfo, CurrentFrame, StartSnapshot; torn snapshot at ring capacity 1) and printed as KNOWN-FINDING; one (CameraInfo nil dereference) was fixed. SC interleavings at instrumented points; weak-memory effects only via the race check. D-Bus transport itself is not modelled (the service methods TakeSnapshot / TakeTestRecording / CameraInfo are called directly).",
          "DESIGN.md §4 C16"),
  "C18": ("B-controlled-scheduler",
          "stateless exploration of all interleavings up to a deviation bound (preemptions + timer fires) of thermal-writer's real reader and writer goroutines under a cooperative scheduler; happens-before race detection on the frame buffers; CPTR parse oracle",
